@@ -274,4 +274,27 @@ theorem makunbound_frame (i : Inst) (x y : Name) (h : y ≠ x) :
 
 example : getSlot (writeSlot [(0, some 1), (1, none), (2, some 3)] 1 9) 2 = some (some 3) := by decide
 
+/-! ## two facts that tie the model's shape to the code's -/
+
+/-- initarg_order_irrelevant: when no slot is reached by two of the supplied pairs, the order in
+    which the pairs are supplied (slip walks a Go map of them) does not change any slot. -/
+theorem initarg_order_irrelevant (sds : List SlotDef) (args1 args2 : List (Name × Val))
+    (hp : args1.Perm args2) (hu : ∀ x, Unambiguous sds args1 x) :
+    build sds args1 = build sds args2 := by
+  rw [slot_init_spec, slot_init_spec]
+  apply List.map_congr_left
+  intro x _
+  rw [valueSpec_perm hp (hu x)]
+
+example : Unambiguous [⟨0, [0], some 2⟩, ⟨1, [1], none⟩] [(1, 7), (0, 8)] 0 := by
+  intro a ha b hb h1 h2
+  simp [initargsFor] at ha hb h1 h2
+  rcases ha with rfl | rfl <;> rcases hb with rfl | rfl <;> simp_all
+
+/-- the model's `dedup` is the loop of mergeSupers: walk the candidates and append those that are
+    not yet on the list -/
+theorem dedup_is_append_loop (l : List Name) :
+    dedup l = l.foldl (fun acc x => if x ∈ acc then acc else acc ++ [x]) [] :=
+  dedup_eq_appendNew l
+
 end SlipVerif.Clos
